@@ -86,3 +86,37 @@ package env
 //@   ensures [new-wins] forall k string :: has(envVars, k) ==> e.Customer[k] == envVars[k]
 //@   ensures [old-kept] forall k string :: !has(envVars, k) && old(has(e.Customer, k)) ==> e.Customer[k] == old(e.Customer[k])
 //@   ensures [still-wired] envWired(e)
+
+//@ spec mapSet(m map[string]string, key string, val string) bool = has(m, key) && m[key] == val && (forall k string :: k != key ==> (has(m, k) == old(has(m, k)) && m[k] == old(m[k])))
+
+//@ func (*Environment).storeNonCredentialEnvironmentVariablesFromInit
+//@   modifies mapof(e.runtime), mapof(e.platform), e.Customer, e.initEnvVarsSet
+//@   ensures [handler] handler != "" ==> e.runtime[handlerEnvKey] == handler && has(e.runtime, handlerEnvKey)
+//@   ensures [function-name] funcName != "" ==> e.platform["AWS_LAMBDA_FUNCTION_NAME"] == funcName && has(e.platform, "AWS_LAMBDA_FUNCTION_NAME")
+//@   ensures [function-version] funcVer != "" ==> e.platform["AWS_LAMBDA_FUNCTION_VERSION"] == funcVer && has(e.platform, "AWS_LAMBDA_FUNCTION_VERSION")
+//@   ensures [customer-overlay] forall k string :: has(customerEnv, k) ==> has(e.Customer, k) && e.Customer[k] == customerEnv[k]
+//@   ensures [runtime-api-kept] old(has(e.platform, runtimeAPIAddressKey)) ==> has(e.platform, runtimeAPIAddressKey) && e.platform[runtimeAPIAddressKey] == old(e.platform[runtimeAPIAddressKey])
+//@   ensures [marked] e.initEnvVarsSet && envWired(e)
+
+//@ func (*Environment).StoreEnvironmentVariablesFromInit
+//@   modifies mapof(e.credentials), mapof(e.runtime), mapof(e.platform), e.Customer, e.initEnvVarsSet
+//@   ensures [credentials] e.credentials["AWS_ACCESS_KEY_ID"] == awsKey && e.credentials["AWS_SECRET_ACCESS_KEY"] == awsSecret && e.credentials["AWS_SESSION_TOKEN"] == awsSession && has(e.credentials, "AWS_ACCESS_KEY_ID") && has(e.credentials, "AWS_SECRET_ACCESS_KEY") && has(e.credentials, "AWS_SESSION_TOKEN")
+//@   ensures [handler] handler != "" ==> e.runtime[handlerEnvKey] == handler && has(e.runtime, handlerEnvKey)
+//@   ensures [marked] e.initEnvVarsSet && envWired(e)
+
+// C18: in snapshot (init caching) mode the credentials layer holds only the endpoint URI and the token, never the keys themselves
+//@ func (*Environment).StoreEnvironmentVariablesFromInitForInitCaching
+//@   modifies mapof(e.credentials), mapof(e.runtime), mapof(e.platform), e.Customer, e.initEnvVarsSet
+//@   ensures [token-placed] has(e.credentials, "AWS_CONTAINER_AUTHORIZATION_TOKEN") && e.credentials["AWS_CONTAINER_AUTHORIZATION_TOKEN"] == token && has(e.credentials, "AWS_CONTAINER_CREDENTIALS_FULL_URI")
+//@   ensures [no-keys-added] forall k string :: k != "AWS_CONTAINER_AUTHORIZATION_TOKEN" && k != "AWS_CONTAINER_CREDENTIALS_FULL_URI" ==> has(e.credentials, k) == old(has(e.credentials, k)) && e.credentials[k] == old(e.credentials[k])
+//@   ensures [marked] e.initEnvVarsSet && envWired(e)
+
+//@ func NewEnvironment
+//@   modifies nothing
+//@   ensures [fresh] r0 != nil && fresh(r0) && envWired(r0) && !r0.runtimeAPISet && !r0.initEnvVarsSet
+//@   ensures [no-customer-no-credentials] forall k string :: !has(r0.Customer, k) && !has(r0.credentials, k)
+
+//@ func SplitEnvironmentVariable
+//@   modifies nothing
+//@   ensures [first-equals] contains(envKeyVal, "=") ==> r2 == nil && r0 + "=" + r1 == envKeyVal && !contains(r0, "=")
+//@   ensures [no-equals] !contains(envKeyVal, "=") ==> r2 != nil
